@@ -535,3 +535,128 @@ erg_harness!(rg_cas_all_alloc_n4, 4, false);
 erg_harness!(rg_cas_all_free_n1, 1, true);
 erg_harness!(rg_cas_all_free_n2, 2, true);
 erg_harness!(rg_cas_all_free_n4, 4, true);
+
+// ---------------------------------------------------------------------------------------------
+// Rely/guarantee for the per-core SLOT words (`local::Local::tree`, u64) - the first step above the
+// lower allocator. A slot word is shared: its owner allocates from it, every other thread may steal
+// from it, demote it or drain it.
+//   RELY      : between any two of this thread's atomic operations other threads may replace a slot
+//               word by any well-formed slot word (within a symbolic interference budget, after
+//               which the environment is frozen: C21).
+//   GUARANTEE : (ghost accounting) every write of this thread replaces the value that is IN MEMORY
+//               at that instant; the frames of that value are TAKEN by this thread, the frames of the
+//               value it writes are GIVEN. The call contracts in `local.rs` then demand conservation:
+//               TAKEN - GIVEN == frames the call reports (allocated, or handed back for unreservation).
+//               A load followed by a plain store (lost update) breaks it whenever the environment
+//               steps between the two.
+// ---------------------------------------------------------------------------------------------
+pub(crate) mod senv {
+    use crate::local::verif_contracts::{slot_fields, slot_wf};
+    pub static mut ON: bool = false;
+    pub static mut BASE: usize = 0;
+    pub static mut LEN: usize = 0;
+    pub static mut BUDGET: usize = 0;
+    pub static mut TAKEN: usize = 0;
+    pub static mut GIVEN: usize = 0;
+    /// number of present values this thread replaced
+    pub static mut TAKEN_N: usize = 0;
+    fn inside(p: *const u8, size: usize) -> bool {
+        let a = p as usize;
+        unsafe { ON && size == 8 && a >= BASE && a < BASE + LEN }
+    }
+    pub fn interfere(p: *const u8, size: usize) {
+        if inside(p, size) {
+            unsafe {
+                if BUDGET > 0 && kani::any() {
+                    let v: u64 = kani::any();
+                    kani::assume(slot_wf(v));
+                    *(p as *mut u64) = v;
+                    BUDGET -= 1;
+                }
+            }
+        }
+    }
+    pub fn wrote(p: *const u8, size: usize, old: u64, new: u64) {
+        if inside(p, size) {
+            let (po, _, fo) = slot_fields(old);
+            let (pn, _, fn_) = slot_fields(new);
+            unsafe {
+                if po {
+                    TAKEN += fo;
+                    TAKEN_N += 1;
+                }
+                if pn {
+                    GIVEN += fn_;
+                }
+            }
+        }
+    }
+    pub fn start(base: usize, len: usize, budget: usize) {
+        unsafe {
+            BASE = base;
+            LEN = len;
+            BUDGET = budget;
+            TAKEN = 0;
+            GIVEN = 0;
+            TAKEN_N = 0;
+            ON = true;
+        }
+    }
+    pub fn stop() {
+        unsafe { ON = false }
+    }
+}
+impl<T: Atomic> Atom<T> {
+    pub(crate) fn load_srg(&self) -> T {
+        senv::interfere(self.rg_addr(), core::mem::size_of::<T>());
+        self.0.load().into()
+    }
+    pub(crate) fn store_srg(&self, v: T) {
+        let (a, s) = (self.rg_addr(), core::mem::size_of::<T>());
+        senv::interfere(a, s);
+        let old = unsafe { env::raw_read(a, s) };
+        self.0.store(v.into());
+        senv::wrote(a, s, old, unsafe { env::raw_read(a, s) });
+    }
+    pub(crate) fn swap_srg(&self, v: T) -> T {
+        let (a, s) = (self.rg_addr(), core::mem::size_of::<T>());
+        senv::interfere(a, s);
+        let old = unsafe { env::raw_read(a, s) };
+        let r = self.0.swap(v.into());
+        senv::wrote(a, s, old, unsafe { env::raw_read(a, s) });
+        r.into()
+    }
+    pub(crate) fn compare_exchange_srg(&self, current: T, new: T) -> core::result::Result<T, T> {
+        let (a, s) = (self.rg_addr(), core::mem::size_of::<T>());
+        senv::interfere(a, s);
+        let old = unsafe { env::raw_read(a, s) };
+        match self.0.compare_exchange(current.into(), new.into()) {
+            Ok(v) => {
+                senv::wrote(a, s, old, unsafe { env::raw_read(a, s) });
+                Ok(v.into())
+            }
+            Err(v) => Err(v.into()),
+        }
+    }
+    /// std's `try_update` loop (load, closure, CAS, on failure retry with the value the CAS returned),
+    /// with an environment step before the load and before every CAS.
+    pub(crate) fn try_update_srg<F: FnMut(T) -> Option<T>>(&self, mut f: F) -> core::result::Result<T, T> {
+        let (a, s) = (self.rg_addr(), core::mem::size_of::<T>());
+        senv::interfere(a, s);
+        let mut prev = self.0.load();
+        loop {
+            let Some(next) = f(prev.into()) else {
+                return Err(prev.into());
+            };
+            senv::interfere(a, s);
+            let old = unsafe { env::raw_read(a, s) };
+            match self.0.compare_exchange(prev, next.into()) {
+                Ok(v) => {
+                    senv::wrote(a, s, old, unsafe { env::raw_read(a, s) });
+                    return Ok(v.into());
+                }
+                Err(v) => prev = v,
+            }
+        }
+    }
+}
